@@ -18,7 +18,8 @@ from ..sources import freeze
 ID = 'C01'
 LEVEL = 'model_checking'
 ENGINE = 'E1 stateless schedule explorer on live petl views'
-RULE = ('world = catalogue view over immutable sources; events open(i)/next(i); all interleavings for 2 '
+RULE = ('world = catalogue view over immutable tuple sources, and over list-typed sources (list header, list rows, '
+        'fresh per world); events open(i)/next(i); all interleavings for 2 '
         'iterators, deviation-bounded (mid-pass switches) for 3; x warm start (cold / after full pass / after '
         'pass abandoned at item 2); node = event history; fresh full pass checked in every node. A node is '
         'non-trivial when at least two iterators are mid-pass (delivered >=1 item, not exhausted) or one is '
@@ -31,12 +32,14 @@ WARM = ('cold', 'afterfull', 'afterpartial')
 
 
 def eligible():
-    return [o for o in C.OPS if not (o.tags & {'eager', 'notee', 'c02only'})]
+    return [o for o in C.OPS if not (o.tags & {'eager', 'notee'})
+            and ('c02only' not in o.tags or 'presorted' in o.tags)]
 
 
 class Harness(object):
-    def __init__(self, opname, n, k, warm, tag=''):
+    def __init__(self, opname, n, k, warm, tag='', src='tuple'):
         self.op = C.BY_NAME[opname]
+        self.src = src
         self.n = n
         self.k = k
         self.warm = warm
@@ -54,6 +57,10 @@ class Harness(object):
     def _build(self):
         if not self.op.kinds:
             random.seed(20260101)   # views that draw from the process-global RNG
+        if self.src == 'list':
+            # list header and list rows, fresh per world: a view that edits its source in place shows on later passes
+            tables = [C.table(kd, self.n, mutable=True) for kd in self.op.kinds]
+            return self.op.build(tables, ctx=self.dir if 'ctx' in self.op.tags else None)
         if self.tables is None:
             self.tables = [C.table(kd, self.n) for kd in self.op.kinds]   # immutable tuples: shareable
         return self.op.build(self.tables, ctx=self.dir if 'ctx' in self.op.tags else None)
@@ -111,7 +118,7 @@ class Harness(object):
                 obs = ('opened',)
             except Exception as e:
                 w['its'][i] = iter(())
-                obs = ('exc-at-iter', type(e).__name__, str(e)[:80])
+                obs = ('exc-at-iter', type(e).__name__, env.excmsg(e))
             w['pos'][i] = 0
             w['done'][i] = False
         else:
@@ -124,7 +131,7 @@ class Harness(object):
                 obs = ('stop',)
                 w['done'][i] = True
             except Exception as e:
-                obs = ('exc', type(e).__name__, str(e)[:80])
+                obs = ('exc', type(e).__name__, env.excmsg(e))
                 w['done'][i] = True
         if w['last'] is not None and w['last'] != i:
             w['switches'] += 1
@@ -149,7 +156,7 @@ class Harness(object):
         try:
             got = [freeze(x) for x in w['view']]
         except Exception as e:
-            return (self.E, ('exc', type(e).__name__, str(e)[:80]), 'fresh pass raised')
+            return (self.E, ('exc', type(e).__name__, env.excmsg(e)), 'fresh pass raised')
         if got != self.E:
             return (self.E, got, 'fresh pass differs')
         return None
@@ -178,30 +185,36 @@ def _vdig(obj, depth):
 
 
 def config_of(h, bound):
-    return {'op': h.op.name, 'n': h.n, 'k': h.k, 'warm': h.warm, 'bound': bound}
+    return {'op': h.op.name, 'n': h.n, 'k': h.k, 'warm': h.warm, 'bound': bound, 'src': h.src}
 
 
 def items(tier, seed):
     out = []
     ops = eligible()
     for o in ops:
-        n2 = 2 if 'expand' in o.tags else 3
-        n3 = 1 if 'expand' in o.tags else 2
+        expand = 'expand' in o.tags or ('dup' in o.kinds and len(o.kinds) > 1)   # (joins on one repeated key: n*n rows)
+        n2 = 2 if expand else 3
+        n3 = 1 if expand else 2
         stateful = 'stateful' in o.tags
-        for warm in WARM:
+        # (the presorted=True variants hold no state between passes: one warm start besides the cold one in quick)
+        for warm in (WARM if tier == 'thorough' or 'presorted' not in o.tags else ('cold', 'afterpartial')):
             out.append({'op': o.name, 'n': n2, 'k': 2, 'warm': warm, 'bound': None})
         # three iterators: shared state lives in the 'stateful' views, the others are pure generators
         out.append({'op': o.name, 'n': n3, 'k': 3, 'warm': 'cold', 'bound': 2 if stateful else 1})
+        if o.kinds:
+            # the same view over list-typed sources (list header, list rows): passes that edit the source in place
+            out.append({'op': o.name, 'n': n2, 'k': 2, 'warm': 'cold', 'bound': None if tier == 'thorough' else 1,
+                        'src': 'list'})
         if tier == 'thorough':
             heavy = ('b1' in o.name or 'b2' in o.name or 'io' in o.tags or len(o.kinds) > 1)   # ms per node
-            if 'expand' not in o.tags:
+            if not expand:
                 out.append({'op': o.name, 'n': n2 + 1, 'k': 2, 'warm': 'cold', 'bound': None})
             for warm in WARM:
                 out.append({'op': o.name, 'n': n3, 'k': 3, 'warm': warm,
                             'bound': 3 if (warm == 'cold' or not heavy) else 2})
             if stateful and o.kinds:     # (views without table inputs have a fixed length: n does not shrink them)
                 out.append({'op': o.name, 'n': 1, 'k': 3, 'warm': 'cold', 'bound': None})
-                if not heavy and 'expand' not in o.tags:
+                if not heavy and not expand:
                     out.append({'op': o.name, 'n': 2, 'k': 3, 'warm': 'cold', 'bound': 5})
     k = seed % max(1, len(out))
     return out[k:] + out[:k]
@@ -221,11 +234,13 @@ def bounds(tier, seed):
     return {'views': len(eligible()), 'iterators': '2 (all interleavings), 3 (deviation bound 2 quick / 3 thorough; '
             'all interleavings on 1-row sources for stateful views in thorough)',
             'rows': '2-3 quick, up to 4 thorough', 'warm_starts': list(WARM),
+            'source_types': 'tuple tables (all configurations); list tables (2 iterators, cold; bound 1 quick, all '
+                            'interleavings thorough)',
             'excluded': sorted(o.name for o in C.OPS if 'notee' in o.tags)}
 
 
 def run_item(item, acc):
-    h = Harness(item['op'], item['n'], item['k'], item['warm'])
+    h = Harness(item['op'], item['n'], item['k'], item['warm'], src=item.get('src', 'tuple'))
     cfg = dict(item)
     st = explore.explore(h, item['bound'], acc, lambda hist: {'config': cfg, 'history': hist},
                          group_prefix='%s | ' % item['op'], count_nontrivial=h.nontrivial)
@@ -240,7 +255,7 @@ def run_item(item, acc):
 
 def replay(case):
     cfg = case['config']
-    h = Harness(cfg['op'], cfg['n'], cfg['k'], cfg['warm'], tag='r')
+    h = Harness(cfg['op'], cfg['n'], cfg['k'], cfg['warm'], tag='r', src=cfg.get('src', 'tuple'))
     hist = [tuple(e) for e in case['history']]
     r = explore.replay(h, hist)
     shutil.rmtree(h.dir, ignore_errors=True)
